@@ -489,6 +489,8 @@ func runC02Child(o *Out) {
 	if os.Getenv("C02_SKIP") == "0" || os.Getenv("C02_SKIP") == "" {
 		c02Sweep(o)
 		o.checkpoint()
+		c02ModelCases(o)
+		o.checkpoint()
 	}
 	r := o.rng
 	n := 3000
@@ -562,6 +564,9 @@ func c02One(o *Out, t reflect.Type, doc []byte, mk func() reflect.Value, e c02En
 	cls := c02Classify(t, doc, sv, gv, serr, gerr, e.name, populated)
 	if cls == "" && populated && c02HasInterfacePointerChain(mk().Elem(), 0) {
 		cls = "PopulatedInterfacePointerChain"
+	}
+	if cls == "" && serr == nil && gerr == nil && c02RepeatedKeyAndSlice(t, doc) {
+		cls = "SliceSpareCapacityZeroed"
 	}
 	if cls != "" {
 		o.known(cls, clipN(string(doc), 120)+" into "+clipN(t.String(), 160))
